@@ -40,8 +40,22 @@ def fam_methods_chain(n): return "const o = { v: 0, inc() { this.v++; return thi
 def fam_destructure(n): return "const [%s] = [%s];\nLOG(%s);\n" % (", ".join("e%d" % i for i in range(n)), ", ".join(str(i) for i in range(n)), ("e0 + e%d" % (n - 1)) if n else "0"), ["L|n:%d" % (n - 1 if n else 0)]
 def fam_if_chain(n):   return "function f(v) { %s return -1; }\nLOG([f(%d), f(%d)]);\n" % (" ".join("if (v === %d) return %d; else" % (i, i + 5) for i in range(n)), n - 1, n), ["L|a[n:%d;n:-1]" % (n + 4 if n else -1)]
 
+def fam_enum(n):
+    if n == 0: return "enum E { Z }\nLOG([E.Z, E[0]]);\n", ["L|a[n:0;s:90]"]
+    last = "M%d" % (n - 1)
+    return "enum E { %s }\nLOG([E.%s, E[%d], E.M0, Object.keys(E).length]);\n" % (", ".join("M%d" % i for i in range(n)), last, n - 1), ["L|a[n:%d;s:%s;n:0;n:%d]" % (n - 1, ",".join(str(ord(ch)) for ch in last), 2 * n)]
+def fam_enum_from(n):       # the counter continues from an explicit start: values cross 127 / 255 / 32767 early
+    if n == 0: return "LOG(0);\n", ["L|n:0"]
+    return "enum E { M0 = 120%s }\nenum F { N0 = 32760%s }\nLOG([E.M%d, E[%d], F.N%d, F[%d]]);\n" % ("".join(", M%d" % i for i in range(1, n)), "".join(", N%d" % i for i in range(1, n)), n - 1, 120 + n - 1, n - 1, 32760 + n - 1), \
+        ["L|a[n:%d;s:%s;n:%d;s:%s]" % (120 + n - 1, ",".join(str(ord(ch)) for ch in "M%d" % (n - 1)), 32760 + n - 1, ",".join(str(ord(ch)) for ch in "N%d" % (n - 1)))]
+def fam_int_literals(n):    # integer literals around every encoding boundary keep their value in every position
+    vals = [v + d for v in (0, 127, 128, 255, 256, 32767, 32768, 65535, 65536, 2 ** 31 - 1) for d in (-1, 0, 1)][:max(1, n)]
+    return "const a = [%s];\nlet t = 0;\n%sLOG([a.reduce((s, x) => s + x, 0), t]);\n" % (", ".join(str(v) for v in vals), "".join("t = t + %d - %d;\n" % (v, v - 1) for v in vals)), ["L|a[n:%d;n:%d]" % (sum(vals), len(vals))]
+
+
 REG_FAMILIES = {"array": fam_array, "array_expr": fam_array_expr, "object": fam_object, "args": fam_args, "params": fam_params, "template": fam_template, "switch": fam_switch,
-                "nested_call": fam_nested_call, "nested_array": fam_nested_arr, "destructure": fam_destructure, "chain": fam_chain, "methods_chain": fam_methods_chain}
+                "nested_call": fam_nested_call, "nested_array": fam_nested_arr, "destructure": fam_destructure, "chain": fam_chain, "methods_chain": fam_methods_chain,
+                "enum": fam_enum, "enum_from": fam_enum_from, "int_literals": fam_int_literals}
 SEQ_FAMILIES = {"stmts": fam_stmts, "decls": fam_decls, "calls": fam_calls, "mcalls": fam_mcalls, "string": fam_string, "consts": fam_consts, "if_chain": fam_if_chain}
 
 
